@@ -55,6 +55,59 @@ def gen_runs(prop, tier, seed):
     return runs
 
 
+def c16_collision_runs(tier, seed):
+    """A module (group) and a benchmark with the same display name as siblings,
+    declared in both orders, so that the tie-breakers behind each --sort key
+    (kind / name / location in the documented order) decide."""
+    rnd = random.Random(seed + 1616)
+    runs = []
+    n = 60 if tier == "quick" else 600
+    for k in range(n):
+        line = [0]
+        def loc():
+            line[0] += rnd.randint(2, 9)
+            return {"file": rnd.choice(["src/a.rs", "src/a.rs", "src/b.rs"]), "line": line[0], "col": rnd.choice([1, 5])}
+        names = rnd.sample(["alpha", "beta", "a1", "zz", "m10", "m2"], rnd.choice([2, 3]))
+        items = []
+        for nm in names:
+            items.append(("mod", nm))
+            items.append(("bench", nm))
+        if rnd.random() < 0.6:
+            items.append(("bench", "gamma"))
+        rnd.shuffle(items)
+        benches, groups = [], []
+        for kind, nm in items:
+            if kind == "mod":
+                custom = rnd.random() < 0.3
+                raw = nm if not custom else nm + "_raw"
+                if rnd.random() < 0.6:
+                    groups.append({"mods": ["prog"], "raw": raw, "name": nm, **loc(), "opts": {}, "has_opts": rnd.random() < 0.5})
+                    if custom is False:
+                        pass
+                else:
+                    raw = nm
+                for j in range(rnd.choice([1, 2])):
+                    benches.append({"mods": ["prog", raw], "raw": f"inner{j}", "name": f"inner{j}", **loc(), "kind": "plain",
+                                    "opts": {"sample_count": 1, "sample_size": 1}, "has_opts": True, "cost": 100})
+            else:
+                custom = rnd.random() < 0.4
+                benches.append({"mods": ["prog"], "raw": nm if not custom else f"fn_{nm}", "name": nm, **loc(), "kind": "plain",
+                                "opts": {"sample_count": 1, "sample_size": 1}, "has_opts": True, "cost": 100})
+        push = [["b", i] for i in range(len(benches))] + [["g", i] for i in range(len(groups))]
+        rnd.shuffle(push)
+        prog = {"id": f"c16c{k}", "crate": "prog", "clock": {"start": 1000, "read_step": 0, "precision": 1},
+                "benches": benches, "groups": groups, "ginst": [], "push": push, "builder": [], "entry": "main"}
+        attr = rnd.choice(["name", "name", "kind", "location"])
+        rev = rnd.random() < 0.4
+        action = rnd.choice(["list", "list", "test"])
+        argv = (["--list"] if action == "list" else ["--test"]) + (["--sortr", attr] if rev else ["--sort", attr])
+        cfg = {"action": action, "sort": attr, "reverse": rev, "run_ignored": "no", "filters": [],
+               "argv": argv, "env": {}, "builder": [], "entry": "main",
+               "src_after": {}, "src_cli": {}, "src_env": {}, "src_before": {}}
+        runs.append((prog, cfg, f"C16-col{k}"))
+    return runs
+
+
 def c15_matrix_runs(tier, seed):
     """Every option, one at a time, set at several levels at once (run time by
     CLI flag / DIVAN_* variable / builder call, the benchmark, the inner and the
@@ -330,6 +383,13 @@ def run(prop, tier, seed):
         p3, recs3 = execute(sr, f"{prop}.shapes")
         res.extra["painter_shapes_replayed"] = len(sr)
         validate_runs(res, prop, p3, "spec->impl:painter-shapes", by_name)
+
+    if prop == "C16":
+        cr = c16_collision_runs(tier, seed)
+        by_name.update({name: (prog, cfg) for prog, cfg, name in cr})
+        p5, recs5 = execute(cr, f"{prop}.collisions")
+        res.extra["name_collision_runs"] = len(cr)
+        validate_runs(res, prop, p5, "impl->spec:same-name-group-and-benchmark", by_name)
 
     if prop == "C15":
         mr = c15_matrix_runs(tier, seed)
